@@ -1176,7 +1176,8 @@ func (d *DotGit) checkReferenceAndTruncate(f billy.File, old *plumbing.Reference
 		return err
 	}
 
-	if ref.Hash() != old.Hash() {
+	if ref.Hash() != old.Hash() ||
+		(ref.Type() == plumbing.SymbolicReference && old.Type() == plumbing.SymbolicReference && ref.Target() != old.Target()) {
 		return storage.ErrReferenceHasChanged
 	}
 	_, err = f.Seek(0, io.SeekStart)
